@@ -871,9 +871,12 @@ def cast_array(a, dt):
         r = out.view(SymArray)
         r.tag = getattr(a, "tag", None)
         return r
-    r = demote(out)
-    if r.dtype != object:
-        return r.astype(d)
+    if d.kind == "b" or not isinstance(a, SymArray):
+        r = demote(out)
+        if r.dtype != object:
+            return r.astype(d)
+    else:
+        r = out
     r = r.view(SymArray)
     r.tag = d
     return r
@@ -1632,6 +1635,9 @@ def _view_bytes(self, dtype=None, type=None):
     if d == np.dtype(np.uint8):
         out = []
         for e in plain.ravel().tolist():
+            if isinstance(e, SInt):
+                w = (self.tag or np.dtype(np.int16)).itemsize * 8
+                e = SBV(z3.Int2BV(e.t, w), signed=True)
             if isinstance(e, SBV):
                 w = e.width
                 for b in range(w // 8):  # little endian
